@@ -465,6 +465,37 @@ func runC15(w *World, r *Report) {
 		}
 	}
 
+	// ---- request-time mapping code reports problems as errors
+	r.Rule("C15.request-time-no-panic", "no explicit panic in the request-time functions of compose/field_mapping.go (mappers, converters, checkers): what can only be known at request time is an error", 8)
+	{
+		n := 0
+		for _, fn := range w.RepoFuncs("compose") {
+			if !strings.HasPrefix(w.pos(fn.Pos()), "compose/field_mapping.go") {
+				continue
+			}
+			// request time: literals (returned handlers) and the helpers they call; compile-time only: validateFieldMapping's body,
+			// checkAndExtractFieldType, the FieldMapping constructors
+			top := topFunc(fn)
+			if fn.Parent() == nil {
+				switch top.Name() {
+				case "validateFieldMapping", "checkAndExtractFieldType", "validateStructOrMap", "isFromAll", "isToAll":
+					continue
+				}
+			}
+			n++
+			bad := token.NoPos
+			instrs(fn, func(in ssa.Instruction) {
+				if p, ok := in.(*ssa.Panic); ok {
+					bad = p.Pos()
+				}
+			})
+			r.Check(bad == token.NoPos, "C15.request-time-no-panic", w.fname(origin(fn))+" has no explicit panic", fn.Pos(), "errors are returned", "request-time mapping code panics explicitly at "+w.pos(bad)+": a value the static check could not see (a typed nil / unexpected dynamic type behind an interface, a zero-value input of a node none of whose data predecessors ran, a nil into map[string]*T …) takes the run down with a panic instead of an ordinary error")
+		}
+		if n < 8 {
+			undecidedf("C15.request-time-no-panic: only %d request-time functions in field_mapping.go", n)
+		}
+	}
+
 	// ---- pointers: the static walk follows as many pointer levels as the run-time code does (one)
 	r.Rule("C15.pointer-peel-agrees", "checkAndExtractFieldType dereferences pointer levels the way takeOne / checkAndExtractToField do at run time: both once, or both in a loop", 1)
 	{
